@@ -21,11 +21,17 @@ MINIMUM = {'R05.1': 4, 'R05.2': 2, 'R05.3': 3}
 TEMPLATE = '[Trash Info]\nPath=%s\nDeletionDate=%s\n'
 
 
+
+
+
+
 # rules of sibling properties that are necessary conditions of this one too
 # (evaluated by the sibling module on the same graphs, reported under this property)
 ALSO = {'C01': {'R01.3': 'the reservation is released only when the payload did not move (also at a '
                   'kill between the two)',
          'R01.6': 'closed effect set: every crash point lies between these effects'},
+ 'C02': {'R02.2': 'when the move has to copy, it copies the whole entry and then deletes the '
+                  'source (copy_function)'},
  'C04': {'R04.1': 'exclusive creation',
          'R04.6': "a kill/failed creation must not delete another process's info"}}
 
